@@ -292,6 +292,9 @@ struct Exec {
     db: Dict,
     wire: Vec<String>,
     answers: Vec<String>,
+    /// the ops the specification speaks about, with the implementation's answers (oracle line for the Lean spec)
+    spec_wire: Vec<String>,
+    spec_answers: Vec<String>,
     unsorted_enum: bool,
     lookups: u64,
     typed_chords: u64,
@@ -307,6 +310,8 @@ impl Exec {
             db: Dict::default(),
             wire: vec![],
             answers: vec![],
+            spec_wire: vec![],
+            spec_answers: vec![],
             unsorted_enum: false,
             lookups: 0,
             typed_chords: 0,
@@ -316,6 +321,11 @@ impl Exec {
     fn emit(&mut self, w: String, a: String) {
         self.wire.push(w);
         self.answers.push(a);
+    }
+
+    fn emit_spec(&mut self, w: String, a: String) {
+        self.spec_wire.push(w);
+        self.spec_answers.push(a);
     }
 
     fn show_prev(&mut self, prev: Option<Result<u32, KeyMap<u32>>>) -> String {
@@ -345,14 +355,19 @@ impl Exec {
         }
         let w = if which == 'a' { "e" } else { "eb" };
         self.emit(w.to_string(), format!("[{}]", show_enum(&e)));
+        // for the specification: an order that does not depend on `Ord for Key`
+        let mut canon: Vec<(String, u32)> = e.iter().map(|(c, v)| (chord_wire(c), *v)).collect();
+        canon.sort();
+        self.emit_spec(w.to_string(), format!("[{}]", canon.iter().map(|(c, v)| format!("{c}={v}")).collect::<Vec<_>>().join(";")));
         Ok(())
     }
 
     fn lookup(&mut self, c: &[Key]) -> Result<(), Failure> {
         let (s, ans) = show_ans(&self.a.lookup(c));
         self.lookups += 1;
-        self.emit(format!("l={}", chord_wire(c)), s);
+        self.emit(format!("l={}", chord_wire(c)), s.clone());
         if !c.is_empty() {
+            self.emit_spec(format!("l={}", chord_wire(c)), s);
             let want = self.da.lookup(c);
             if ans != want {
                 return Err(Failure {
@@ -383,6 +398,7 @@ impl Exec {
                 let prev = self.a.register(c.as_slice(), *v);
                 let p = self.show_prev(prev);
                 self.emit(format!("ra={}={}", chord_wire(c), v), p);
+                self.emit_spec(format!("ra={}={}", chord_wire(c), v), "r".to_string());
                 self.da.bind(c, *v);
                 if !c.is_empty() {
                     let (_, ans) = show_ans(&self.a.lookup(c));
@@ -399,6 +415,7 @@ impl Exec {
                 let prev = self.b.register(c.as_slice(), *v);
                 let p = self.show_prev(prev);
                 self.emit(format!("rb={}={}", chord_wire(c), v), p);
+                self.emit_spec(format!("rb={}={}", chord_wire(c), v), "r".to_string());
                 self.db.bind(c, *v);
             }
             Op::Lookup(c) => self.lookup(c)?,
@@ -407,6 +424,7 @@ impl Exec {
             Op::Override => {
                 self.a.register_override(&self.b);
                 self.emit("o".to_string(), "o".to_string());
+                self.emit_spec("o".to_string(), "o".to_string());
                 // the other map's chords are pairwise unrelated, so the order of replay is immaterial
                 let other = self.db.0.clone();
                 for (c, v) in other {
@@ -438,6 +456,7 @@ impl Exec {
                 self.a.clear();
                 self.da = Dict::default();
                 self.emit("c".to_string(), "c".to_string());
+                self.emit_spec("c".to_string(), "c".to_string());
             }
             Op::Typed(segs) => {
                 self.state.clear();
@@ -528,7 +547,7 @@ fn shrink(ops: Vec<Op>) -> Vec<Op> {
     if let Err((i, _)) = run_script(&cur) {
         cur.truncate(i + 1);
     }
-    let mut budget = 400;
+    let mut budget = 600;
     let mut changed = true;
     while changed && budget > 0 {
         changed = false;
@@ -542,6 +561,27 @@ fn shrink(ops: Vec<Op>) -> Vec<Op> {
                 changed = true;
             } else {
                 i += 1;
+            }
+        }
+        // segments of typed streams, one at a time
+        for i in 0..cur.len() {
+            if let Op::Typed(segs) = &cur[i] {
+                let mut segs = segs.clone();
+                let mut j = 0;
+                while j < segs.len() && budget > 0 {
+                    let mut fewer = segs.clone();
+                    fewer.remove(j);
+                    let mut cand = cur.clone();
+                    cand[i] = Op::Typed(fewer.clone());
+                    budget -= 1;
+                    if run_script(&cand).is_err() {
+                        segs = fewer;
+                        cur = cand;
+                        changed = true;
+                    } else {
+                        j += 1;
+                    }
+                }
             }
         }
     }
@@ -566,6 +606,11 @@ fn script_case(out: &mut Out, tag: &str, ops: Vec<Op>) {
                 out.sample(json!({"kind": "script", "tag": tag, "request": req.chars().take(400).collect::<String>(), "impl": ans.chars().take(200).collect::<String>()}));
             }
             out.corr(&req, &ans);
+            // the verified Lean specification (bind / bindAll / answer) on the same history must give what the
+            // implementation answered
+            if !ex.spec_wire.is_empty() {
+                out.oracle(&format!("c18 spec {}", ex.spec_wire.join(" ")), &ex.spec_answers.join(" "));
+            }
         }
         Err(_) => {
             let small = shrink(ops.clone());
@@ -732,7 +777,7 @@ fn gen_history(rng: &mut Rng, pool: &[Key], thorough: bool) -> Vec<Op> {
         }
     }
     ops.push(Op::EnumA);
-    let depth = if alpha.len() <= 3 || thorough || rng.chance(1, 8) { 4 } else { 3 };
+    let depth = if alpha.len() <= 3 || rng.chance(1, if thorough { 2 } else { 8 }) { 4 } else { 3 };
     ops.push(Op::LookupAll(alpha.clone(), depth));
     ops.push(Op::Lookup(vec![]));
     // structured stream: bound chords and unbound keys from an idle matcher
@@ -1224,14 +1269,14 @@ fn main() {
     }
 
     // histories
-    let nhist = if cfg.thorough { 120_000 } else { 2_500 };
+    let nhist = if cfg.thorough { 40_000 } else { 5_000 };
     for _ in 0..nhist {
         let ops = gen_history(&mut rng, &pool, cfg.thorough);
         script_case(&mut out, "random", ops);
     }
 
     // parser: generated, mutated, garbage
-    let nparse = if cfg.thorough { 400_000 } else { 12_000 };
+    let nparse = if cfg.thorough { 400_000 } else { 24_000 };
     for i in 0..nparse {
         match i % 8 {
             0..=1 => {
